@@ -150,3 +150,17 @@ Proof.
   cbn [frames_of]. rewrite app_length. cbn [length].
   destruct (Nat.leb_spec (length l + 1) max_len) as [_|Hgt]; [|lia]. rewrite strip_cr_snoc, IH1. reflexivity.
 Qed.
+
+(* bytes that are not (yet) terminated by LF are never handed to the command layer - they stay pending (and are dropped
+   with the connection if it closes): a read without LF yields no line at all *)
+Lemma lines_of_nolf_none s : nolf s -> lines_of s = ([], s).
+Proof.
+  induction s as [|c s IH]; intros H; [reflexivity|]. unfold nolf in H. cbn [forallb] in H. apply andb_true_iff in H as [Hc Hs].
+  apply negb_true_iff in Hc. cbn [lines_of]. rewrite (IH Hs), Hc. reflexivity.
+Qed.
+
+Theorem unterminated_yields_no_line pending seg l : nolf (pending ++ seg) -> ~ In (FLine l) (fst (feed pending seg)).
+Proof.
+  intros H. unfold feed. rewrite (lines_of_nolf_none _ H). cbn [frames_of fst].
+  destruct (Nat.ltb max_len (length (pending ++ seg))); [intros [E|[]]; discriminate E|intros []].
+Qed.
